@@ -402,6 +402,8 @@ def lookup_model(fn):
         return ent[1]
     # bound methods of struct.Struct instances
     slf = getattr(fn, '__self__', None)
+    if isinstance(slf, _re.Pattern) and isinstance(fn, types.BuiltinFunctionType) and fn.__name__ in ('match', 'fullmatch'):
+        return lambda ctx, text, *a: regex_match(ctx, slf, text, fn.__name__ == 'fullmatch', *a)
     if isinstance(slf, struct.Struct) and isinstance(fn, types.BuiltinFunctionType):
         nm = fn.__name__
         if nm == 'pack':
@@ -706,10 +708,93 @@ def str_replace_all(s, a, b):
 _LOWER = z3.Function('py_lower', z3.StringSort(), z3.StringSort())
 
 
+import re as _re
+
+
+class MatchModel(object):
+    """the (truthy) result of a successful symbolic regex match; groups are not modelled"""
+
+
+def _regex_to_z3(pat):
+    """A small regex subset as a z3 regular expression anchored at the start: literals, character classes with ranges, the quantifiers * + ?,
+    a leading ^, a trailing $ (Python semantics: end of string or just before a final newline) or \\Z (end of string).  Returns (regex, anchored_end)
+    or None when the pattern uses anything else."""
+    i, n = 0, len(pat)
+    if pat.startswith('^'):
+        i = 1
+    parts = []
+    end = None
+    while i < n:
+        c = pat[i]
+        if c == '$' and i == n - 1:
+            end = 'dollar'
+            i += 1
+            break
+        if c == '\\' and pat[i:i + 2] == '\\Z' and i == n - 2:
+            end = 'Z'
+            i += 2
+            break
+        if c == '[':
+            j = pat.index(']', i + 1)
+            body = pat[i + 1:j]
+            if body.startswith('^') or '\\' in body:
+                return None
+            alts, k = [], 0
+            while k < len(body):
+                if k + 2 < len(body) and body[k + 1] == '-':
+                    alts.append(z3.Range(body[k], body[k + 2]))
+                    k += 3
+                else:
+                    alts.append(z3.Re(body[k]))
+                    k += 1
+            atom = alts[0] if len(alts) == 1 else z3.Union(*alts)
+            i = j + 1
+        elif c in '.()|{}\\^$*+?':
+            return None
+        else:
+            atom = z3.Re(c)
+            i += 1
+        if i < n and pat[i] in '*+?':
+            atom = {'*': z3.Star, '+': z3.Plus, '?': z3.Option}[pat[i]](atom)
+            i += 1
+        parts.append(atom)
+    if i != n:
+        return None
+    if end == 'dollar':
+        parts.append(z3.Option(z3.Re('\n')))
+    if not parts:
+        rx = z3.Re('')
+    else:
+        rx = parts[0] if len(parts) == 1 else z3.Concat(*parts)
+    return rx, end is not None
+
+
+def regex_match(ctx, pattern, text, full, *a):
+    """E-STR: re.Pattern.match / fullmatch on a symbolic string for the regex subset of _regex_to_z3 (forks on membership)"""
+    from .interp import deep_concrete, PyExc
+    if deep_concrete(text) and deep_concrete(a):
+        try:
+            return getattr(pattern, 'fullmatch' if full else 'match')(text, *a)
+        except Exception as e:
+            raise PyExc(e)
+    if a or not isinstance(text, SStr) or pattern.flags & ~_re.UNICODE:
+        raise Unsupported('regex match with flags / positions on a symbolic string')
+    tr = _regex_to_z3(pattern.pattern)
+    if tr is None:
+        raise Unsupported('regex %r is outside the modelled subset' % pattern.pattern)
+    rx, anchored = tr
+    if not anchored and not full:
+        rx = z3.Concat(rx, z3.Full(z3.ReSort(z3.StringSort())))
+    return MatchModel() if ctx.branch(z3.InRe(text.t, rx)) else None
+
+
 def str_lower(ctx, s):
     """str.lower(): uninterpreted, with the facts that it preserves length on ASCII and is idempotent (ground)."""
     t = _LOWER(s.t)
     ctx.assume(_LOWER(t) == t, silent=True)
+    # E-STR: a string of ASCII characters none of which is an upper-case letter is its own lower()
+    no_upper_ascii = z3.Star(z3.Union(z3.Range(chr(0), '@'), z3.Range('[', chr(127))))
+    ctx.assume(z3.Implies(z3.InRe(s.t, no_upper_ascii), t == s.t), silent=True)
     return SStr(t)
 
 
